@@ -123,21 +123,24 @@ Theorem C20_handler_start_runs : forall cats es s c s' o, run cats init es = Som
 Proof. exact handler_start_runs. Qed.
 
 (* The request channel of the production wiring (`_DataPipeline._data_sourcing_request_sender`): with the
-   receiver capacity the code configures (`_REQUEST_RECV_BUFFER_SIZE`, re-translated from /repo on every run;
-   that the `limit=` of the actor's receiver IS this constant is checked on the real receiver by the "pipeline"
-   stream) a burst of up to that many requests issued back to back before the actor runs loses none and keeps
+   receiver capacity the code passes (`limit=` of the actor's `channel.new_receiver(...)`, translated as
+   [data_sourcing_request_limit]; equal to the translated `_REQUEST_RECV_BUFFER_SIZE`; the "pipeline" stream
+   also reads it off the receiver the real pipeline creates) a burst of up to that many requests issued back to back before the actor runs loses none and keeps
    its order; each is then served by its own AddMetric event. *)
+Theorem C20_request_limit_is_configured_size : data_sourcing_request_limit = request_recv_buffer_size.
+Proof. exact request_limit_is_configured_size. Qed.
+
 Theorem C20_request_burst_served : forall A (rs : list A),
   (length rs <= Z.to_nat request_recv_buffer_size)%nat ->
-  req_burst (Z.to_nat request_recv_buffer_size) [] rs = rs.
-Proof. exact (fun A rs => req_burst_from_empty A (Z.to_nat request_recv_buffer_size) rs). Qed.
+  req_burst (Z.to_nat data_sourcing_request_limit) [] rs = rs.
+Proof. exact request_burst_served. Qed.
 
 Theorem C20_request_queue_bounded : forall A (cap : nat) (rs q : list A),
   (0 < cap)%nat -> (length q <= cap)%nat -> length (req_burst cap q rs) = Nat.min cap (length q + length rs).
 Proof. exact req_burst_length. Qed.
 
 Example C20_request_capacity_nonvacuous :
-  0 < request_recv_buffer_size /\ req_burst 3 [] [1; 2; 3; 4; 5] = [3; 4; 5] /\ req_burst 3 [] [1; 2; 3] = [1; 2; 3].
+  0 < data_sourcing_request_limit /\ req_burst 3 [] [1; 2; 3; 4; 5] = [3; 4; 5] /\ req_burst 3 [] [1; 2; 3] = [1; 2; 3].
 Proof. vm_compute. repeat split; reflexivity. Qed.
 
 (* The trace checker used for the correspondence accepts only runs of the transition system, so the
@@ -177,5 +180,6 @@ Print Assumptions C20_opening_call_frame.
 Print Assumptions C20_request_while_opening.
 Print Assumptions C20_handler_start_runs.
 Print Assumptions C20_checked_traces_are_runs.
+Print Assumptions C20_request_limit_is_configured_size.
 Print Assumptions C20_request_burst_served.
 Print Assumptions C20_request_queue_bounded.
